@@ -7,7 +7,7 @@ HERE = os.path.dirname(os.path.dirname(os.path.abspath(__file__)))
 CHECKS = {
  "C03": dict(
    technique="bounded-exhaustive enumeration of (frame, index shape, order list) and of seam entries into the real quickSort/heapSort; predicate oracle (permutation + ordered)",
-   text="Every frame over small per-type alphabets up to the stated row count, every order list of 1-2 keys with every Reverse/NullLast combination, on seven physical index shapes, plus every 0/1 and 0/1/2 key sequence across the insertion/median-of-three regimes, ninther-size patterns with all <=2 deviations, and the real heapSort/quickSort entered through an overlay seam on every small input and sub-range. Each execution of the real code is checked against the statement's order relation; no expected output is computed.",
+   text="Every frame over small per-type alphabets up to the stated row count, every order list of 1-2 keys with every Reverse/NullLast combination, on eight physical index shapes, plus every 0/1 and 0/1/2 key sequence across the insertion/median-of-three regimes, ninther-size patterns with all <=2 deviations, and the real heapSort/quickSort entered through an overlay seam on every small input and sub-range. Each execution of the real code is checked against the statement's order relation; no expected output is computed.",
    note="Trusted: the 60-line reference comparator; Go toolchain. Values outside the alphabets and frames above the stated sizes are not explored.",
    design="5/C03"),
 }
@@ -37,19 +37,19 @@ CHECKS["C01"] = dict(
 
 CHECKS["C06"] = dict(
    technique="bounded-exhaustive enumeration of instruction programs x frame variants x FilteredApply clauses; sequential row-wise reference model",
-   text="Every instruction list of length <= 2 (quick; 3 over a reduced alphabet in thorough) over ~150 instructions covering every instruction shape and supported function signature with overlapping sources and destinations, on 8 frame variants (seven physical index shapes and frames produced by Aggregate, Select and Copy), the same programs under 6 FilteredApply clauses, and WithRowNums; names, positions, types and every cell of the result are compared with the model, zero-argument functions additionally by call count.",
+   text="Every instruction list of length <= 2 (quick; 3 over a reduced alphabet in thorough) over ~150 instructions covering every instruction shape and supported function signature with overlapping sources and destinations, on 8 frame variants (eight physical index shapes and frames produced by Aggregate, Select and Copy), the same programs under 6 FilteredApply clauses, and WithRowNums; names, positions, types and every cell of the result are compared with the model, zero-argument functions additionally by call count.",
    note="Trusted: model/apply.go. Three recorded defects of FilteredApply (constant, column copy and enum ToUpper instructions ignore the filter) are attributed by model switches and printed as KNOWN-FINDING; any other discrepancy is a violation.",
    design="5/C06")
 
 CHECKS["C07"] = dict(
    technique="bounded-exhaustive enumeration of typed expression trees (plus single-mutation invalid trees) x destinations x construction styles x contexts; interpreter reference model",
-   text="Every well-typed expression tree of depth <= 2 over columns and constants of every type, all default-context functions and two user-registered functions (depth 3 over a reduced alphabet in thorough), n-ary calls with 3-4 arguments, built both through Expr/Val and as raw nested lists, with the destination a new name, a source column or another column, on seven index shapes; invalid trees by single mutation at every position. The result frame (columns, positions, types, every cell, no surviving temporary, Err exactly when the model says so) is compared with an interpreter of the statement.",
+   text="Every well-typed expression tree of depth <= 2 over columns and constants of every type, all default-context functions and two user-registered functions (depth 3 over a reduced alphabet in thorough), n-ary calls with 3-4 arguments, built both through Expr/Val and as raw nested lists, with the destination a new name, a source column or another column, on eight index shapes; invalid trees by single mutation at every position. The result frame (columns, positions, types, every cell, no surviving temporary, Err exactly when the model says so) is compared with an interpreter of the statement.",
    note="Trusted: model/expr.go interpreter and its copies of the public function package's semantics. One 4-row frame.",
    design="5/C07")
 
 CHECKS["C08"] = dict(
    technique="complete enumeration of a finite input space (column maps x ColumnOrder x Enums variants; projection requests x index shapes) against a reference model",
-   text="Every column map of 0-3 columns over 13 data kinds (all supported slice and Const types, unsupported types, nil) with every length combination, every ColumnOrder variant (permutations, too short/long, unknown, duplicate) and Enums variant, legal and illegal names, string cells of arbitrary bytes; and every Select sequence, Drop subset, Slice bound pair around 0..n and Copy pair on seven index shapes. New must reject exactly what the model rejects and otherwise reproduce every cell; projections must return exactly the requested columns/rows or Err.",
+   text="Every column map of 0-3 columns over 13 data kinds (all supported slice and Const types, unsupported types, nil) with every length combination, every ColumnOrder variant (permutations, too short/long, unknown, duplicate) and Enums variant, legal and illegal names, string cells of arbitrary bytes; and every Select sequence, Drop subset, Slice bound pair around 0..n and Copy pair on eight index shapes. New must reject exactly what the model rejects and otherwise reproduce every cell; projections must return exactly the requested columns/rows or Err.",
    note="Trusted: modelNew/runProjCase in checks/c08.go. Two readings deliberately left open (row count of a zero-column frame; Drop of a non-existent column).",
    design="5/C08")
 
@@ -73,13 +73,13 @@ CHECKS["C12"] = dict(
 
 CHECKS["C13"] = dict(
    technique="bounded-exhaustive enumeration of frames x writer options x reader options; round-trip oracle plus independent reference reader of the written bytes",
-   text="All cell sequences of length <= 3 over per-type alphabets chosen for the writer/reader edge cases (quotes, delimiters, line feeds, blanks, invalid UTF-8, numeric-looking strings; +-0, subnormal, max, +-Inf, NaN; integer extremes; enums with a declared order) for one column of every type, and every type combination of three columns over reduced alphabets with every Columns permutation, each with Header on/off, EmptyNull on/off and seven index shapes. The bytes written by ToCSV are parsed by the reference RFC 4180 parser (fields must denote the cells by value) and read back by ReadCSV with declared types; the result must equal the frame cell by cell (floats bit-identical).",
+   text="All cell sequences of length <= 3 over per-type alphabets chosen for the writer/reader edge cases (quotes, delimiters, line feeds, blanks, invalid UTF-8, numeric-looking strings; +-0, subnormal, max, +-Inf, NaN; integer extremes; enums with a declared order) for one column of every type, and every type combination of three columns over reduced alphabets with every Columns permutation, each with Header on/off, EmptyNull on/off and eight index shapes. The bytes written by ToCSV are parsed by the reference RFC 4180 parser (fields must denote the cells by value) and read back by ReadCSV with declared types; the result must equal the frame cell by cell (floats bit-identical).",
    note="Trusted: reference parser; strings without CR only.",
    design="5/C13")
 
 CHECKS["C14"] = dict(
    technique="complete enumeration of byte-string families for cells and column names, structured float families, degenerate frames; JSON token-stream oracle and ReadJSON round trip",
-   text="String/enum cells and column names over every single byte, every 2- and 3-byte (thorough: 4-byte) combination of a 12-byte risk alphabet, line/paragraph separators, multi-byte runes and malformed UTF-8; floats over every exponent with structured mantissas, small decimals and powers of ten with neighbours, NaN; integer extremes; zero rows and zero columns; seven index shapes. The output must be valid JSON whose token stream has one object per row in row order with keys in column order and values equal to the cells (invalid bytes as U+FFFD, floats bit-identical), and ReadJSON must reproduce the frame where JSON can carry it.",
+   text="String/enum cells and column names over every single byte, every 2- and 3-byte (thorough: 4-byte) combination of a 12-byte risk alphabet, line/paragraph separators, multi-byte runes and malformed UTF-8; floats over every exponent with structured mantissas, small decimals and powers of ten with neighbours, NaN; integer extremes; zero rows and zero columns; eight index shapes. The output must be valid JSON whose token stream has one object per row in row order with keys in column order and values equal to the cells (invalid bytes as U+FFFD, floats bit-identical), and ReadJSON must reproduce the frame where JSON can carry it.",
    note="Trusted: encoding/json tokenizer. ReadJSON inversion asserted for valid UTF-8, NaN-free floats, >= 1 row.",
    design="5/C14")
 CHECKS["C16"] = dict(
